@@ -454,3 +454,85 @@ void h_keysetgen(void) {
     VERIF_REACH();
 }
 #endif
+
+#ifdef H_TGSWDEC
+/* tGswSymDecrypt: the indicator 1/Msize is decomposed once; for every i < l the phase of row (k, i) -- the LAST block -- is computed with the
+ * key's TLWE key and accumulated with digit polynomial i; every coefficient of the sum is rounded to the message grid of the SAME Msize;
+ * the three temporaries are released.  N symbolic (loop contracts), l = VERIF_L enumerated.  Monitors: allocation, modSwitch*, clear,
+ * decomposition (assumed from C12: the digits of a zero coefficient are zero), tLwePhase, torusPolynomialAddMulR (assumed exact ring product). */
+#ifndef VERIF_L
+#define VERIF_L 2
+#endif
+#ifndef VERIF_K
+#define VERIF_K 1
+#endif
+int32_t n_phase, n_mul, n_ms, bad, g_wout; Torus32 g_seen_phase; int32_t in_Msize;
+static TorusPolynomial o_tp[2]; static int n_newtp, n_deltp, n_newip, n_delip; static IntPolynomial o_dec[VERIF_L]; static int32_t a_N;
+TorusPolynomial *new_TorusPolynomial(const int32_t N) { if (N != a_N || n_newtp >= 2) bad++; TorusPolynomial *p = &o_tp[n_newtp < 2 ? n_newtp : 1]; *(int32_t *)&p->N = N; p->coefsT = verif_alloc((size_t)N * sizeof(Torus32)); n_newtp++; return p; }
+void delete_TorusPolynomial(TorusPolynomial *p) { if (p != &o_tp[0] && p != &o_tp[1]) bad++; n_deltp++; }      /* storage is released by the harness (it is inspected after the call) */
+#define DEC_ALLOC(q) { *(int32_t *)&o_dec[q].N = N; o_dec[q].coefs = verif_alloc((size_t)N * sizeof(int32_t)); }
+IntPolynomial *new_IntPolynomial_array(int32_t nbelts, const int32_t N) { if (nbelts != VERIF_L || N != a_N) bad++; n_newip++;
+    DEC_ALLOC(0)
+#if VERIF_L >= 2
+    DEC_ALLOC(1)
+#endif
+#if VERIF_L >= 3
+    DEC_ALLOC(2)
+#endif
+#if VERIF_L >= 4
+    DEC_ALLOC(3)
+#endif
+    return o_dec; }
+void delete_IntPolynomial_array(int32_t nbelts, IntPolynomial *obj) { if (nbelts != VERIF_L || obj != o_dec) bad++; n_delip++; }
+static int n_to, n_clear, n_dec, seq, s_dec, s_clear2; static Torus32 g_indic;
+Torus32 modSwitchToTorus32(int32_t mu, int32_t Msize) { if (mu != 1 || Msize != in_Msize) bad++; n_to++; return g_indic; }
+void torusPolynomialClear(TorusPolynomial *r) { if (r != &o_tp[0]) bad++; n_clear++; r->coefsT[0] = 0; if (n_clear == 2) s_clear2 = ++seq; }
+static const TGswParams *x_gp;
+#define DEC_ZERO(q) __CPROVER_array_set(result[q].coefs, 0);
+void tGswTorus32PolynomialDecompH(IntPolynomial *result, const TorusPolynomial *sample, const TGswParams *params) {
+    if (result != o_dec || sample != &o_tp[0] || params != x_gp || n_clear != 1 || sample->coefsT[0] != g_indic) bad++;     /* cleared, then coefficient 0 = 1/Msize */
+    n_dec++; s_dec = ++seq;
+    DEC_ZERO(0)
+#if VERIF_L >= 2
+    DEC_ZERO(1)
+#endif
+#if VERIF_L >= 3
+    DEC_ZERO(2)
+#endif
+#if VERIF_L >= 4
+    DEC_ZERO(3)
+#endif
+}
+static const TLweSample *x_lastblock; static const TLweKey *x_tk;
+void tLwePhase(TorusPolynomial *phase, const TLweSample *sample, const TLweKey *key) { if (phase != &o_tp[1] || sample != x_lastblock + n_phase || key != x_tk || n_mul != n_phase) bad++; n_phase++; }
+void torusPolynomialAddMulR(TorusPolynomial *result, const IntPolynomial *poly1, const TorusPolynomial *poly2) { if (result != &o_tp[0] || poly1 != o_dec + n_mul || poly2 != &o_tp[1] || n_phase != n_mul + 1 || n_clear != 2) bad++; n_mul++; }
+int32_t modSwitchFromTorus32(Torus32 phase, int32_t Msize) { if (Msize != in_Msize) bad++; int32_t r; if (n_ms == g_k) { g_seen_phase = phase; r = g_wout; } n_ms++; return r; }
+#include "extracted.inc"
+void h_tGswSymDecrypt(void) {
+    int32_t N; __CPROVER_assume(N >= 1 && N <= VERIF_NMAX); a_N = N;
+    TLweParams tp; *(int32_t *)&tp.N = N; *(int32_t *)&tp.k = VERIF_K; TGswParams gp; *(const TLweParams **)&gp.tlwe_params = &tp; *(int32_t *)&gp.l = VERIF_L; x_gp = &gp;
+    static TLweSample rows[(VERIF_K + 1) * VERIF_L]; static TLweSample *blocs[VERIF_K + 1]; for (int b = 0; b <= VERIF_K; b++) blocs[b] = rows + b * VERIF_L;
+    TGswSample smp; smp.all_sample = rows; smp.bloc_sample = blocs; x_lastblock = blocs[VERIF_K];
+    TGswKey key; key.params = &gp; x_tk = &key.tlwe_key;
+    IntPolynomial res; *(int32_t *)&res.N = N; res.coefs = verif_alloc((size_t)N * sizeof(int32_t));
+    int32_t ms, gk, wo; Torus32 ind; __CPROVER_assume(ms >= 2 && gk >= 0 && gk < N); in_Msize = ms; g_k = gk; g_wout = wo; g_indic = ind;
+    n_phase = n_mul = n_ms = bad = 0; n_newtp = n_deltp = n_newip = n_delip = n_to = n_clear = n_dec = seq = s_dec = s_clear2 = 0;
+    tGswSymDecrypt(&res, &smp, &key, ms);
+    __CPROVER_assert(bad == 0 && n_to == 1 && n_dec == 1 && n_clear == 2 && s_dec < s_clear2, "the indicator 1/Msize (coefficient 0 of a cleared polynomial) is decomposed once, then the accumulator is cleared again");
+    __CPROVER_assert(n_phase == VERIF_L && n_mul == VERIF_L, "for every i < l: phase of row (k, i) of the LAST block under the key's TLWE key, accumulated with digit polynomial i");
+    __CPROVER_assert(n_ms == N && res.coefs[g_k] == g_wout && g_seen_phase == o_tp[0].coefsT[g_k], "every coefficient of the message is the rounding of the same coefficient of the accumulated phase to the grid of the Msize given");
+    __CPROVER_assert(n_newtp == 2 && n_deltp == 2 && n_newip == 1 && n_delip == 1, "the three temporaries are released");
+    free(o_tp[0].coefsT); free(o_tp[1].coefsT); free(res.coefs);
+    free(o_dec[0].coefs);
+#if VERIF_L >= 2
+    free(o_dec[1].coefs);
+#endif
+#if VERIF_L >= 3
+    free(o_dec[2].coefs);
+#endif
+#if VERIF_L >= 4
+    free(o_dec[3].coefs);
+#endif
+    VERIF_REACH();
+}
+#endif
